@@ -251,3 +251,8 @@ impl FragmentAssembler {
     }
   }
 }
+
+// Verification accessors (read-only views of private state); only with `--cfg rustdds_verif`.
+#[cfg(rustdds_verif)]
+#[path = "/verif/facade/fragasm_hooks.rs"]
+pub(crate) mod verif_hooks;
